@@ -360,5 +360,126 @@ theorem sum_eq_countP_of_le_one (l : List Nat) (h : ∀ x ∈ l, x ≤ 1) : l.su
     simp only [List.sum_cons, List.countP_cons, this]
     rcases Nat.le_one_iff_eq_zero_or_eq_one.mp ha with rfl | rfl <;> simp <;> omega
 
+section
+open Reorder
+
+theorem filterMap_eq_self {γ : Type} (f : γ → Option γ) (l : List γ) (h : ∀ x ∈ l, f x = some x) :
+    l.filterMap f = l := by
+  induction l with
+  | nil => rfl
+  | cons a l ih =>
+    rw [List.filterMap_cons, h a (by simp), ih (fun x hx => h x (by simp [hx]))]
+
+theorem noneIfEmpty_idem {γ : Type} (o : Option (List γ)) : noneIfEmpty (noneIfEmpty o) = noneIfEmpty o := by
+  cases o with
+  | none => rfl
+  | some l => cases l <;> rfl
+
+theorem pySlice_nat {γ : Type} (l : List γ) (i L : Nat) (h : i + L ≤ l.length) :
+    pySlice l (i : Int) ((i : Int) + (L : Int)) = (l.drop i).take L := by
+  unfold pySlice pyIndex
+  have h1 : ¬ ((i : Int) < 0) := by omega
+  have h2 : ¬ ((i : Int) + (L : Int) < 0) := by omega
+  simp only [h1, h2, if_false]
+  have e1 : min (i : Int).toNat l.length = i := by simp; omega
+  have e2 : min ((i : Int) + (L : Int)).toNat l.length = i + L := by
+    have : ((i : Int) + (L : Int)).toNat = i + L := by omega
+    rw [this]; omega
+  rw [e1, e2]
+  congr 1
+  omega
+
+/-- slicing the piece `[i, i+L)` once more from `0` to `L` changes nothing (`L > 0`): the second slice that
+`find_indices` → `is_subsequence` performs is the identity -/
+theorem sliceAt_idem (t : Annotation) (i L : Nat) (hL : 0 < L) (h : i + L ≤ t.seq.length) :
+    sliceAt (sliceAt t i L) 0 L = sliceAt t i L := by
+  have hseq := sliceAt_seq t i L h
+  have hlen : (sliceAt t i L).seq.length = L := by rw [hseq]; simp; omega
+  generalize hr : sliceAt t i L = r at *
+  have hps : pySlice r.seq ((0 : Nat) : Int) (((0 : Nat) : Int) + (L : Int)) = r.seq := by
+    rw [pySlice_nat r.seq 0 L (by omega)]; simp [← hlen]
+  conv => lhs; unfold sliceAt Reorder.slice
+  simp only [hps]
+  by_cases hm : hasMods r = true
+  · simp only [hm, Bool.not_true, Bool.false_eq_true, if_false]
+    -- r comes from a slice of t: read off the shape of its internal mods and intervals
+    have hshape : (∀ d, r.internal = some d → ∀ p ∈ d, sliceEntry ((0 : Nat) : Int) (((0 : Nat) : Int) + (L : Int)) p = some p) ∧
+        (∀ ivs, r.intervals = some ivs → ivs ≠ [] ∧
+          ∀ iv ∈ ivs, sliceInterval ((0 : Nat) : Int) (((0 : Nat) : Int) + (L : Int)) iv = some iv) := by
+      rw [← hr]
+      unfold sliceAt Reorder.slice
+      simp only
+      split
+      · simp [plain]
+      · constructor
+        · intro d hd p hp
+          simp only [Option.map_eq_some_iff] at hd
+          obtain ⟨d0, _, rfl⟩ := hd
+          rw [List.mem_filterMap] at hp
+          obtain ⟨p0, _, hp0⟩ := hp
+          unfold sliceEntry at hp0
+          split at hp0
+          · rename_i hc
+            cases hp0
+            unfold sliceEntry
+            simp only
+            have : ((0 : Nat) : Int) ≤ p0.1 - (i : Int) ∧ p0.1 - (i : Int) < ((0 : Nat) : Int) + (L : Int) := by
+              constructor <;> omega
+            rw [if_pos this]; simp
+          · cases hp0
+        · intro ivs hivs
+          cases hiv0 : t.intervals with
+          | none => simp [hiv0, noneIfEmpty] at hivs
+          | some l0 =>
+            simp only [hiv0, Option.map_some] at hivs
+            cases hfm : List.filterMap (sliceInterval (i : Int) ((i : Int) + (L : Int))) l0 with
+            | nil => simp [hfm, noneIfEmpty] at hivs
+            | cons a l =>
+              simp only [hfm, noneIfEmpty, Option.some.injEq] at hivs
+              subst hivs
+              refine ⟨by simp, ?_⟩
+              intro iv hiv
+              rw [← hfm, List.mem_filterMap] at hiv
+              obtain ⟨iv0, _, hiv0'⟩ := hiv
+              unfold sliceInterval at hiv0'
+              split at hiv0'
+              · rename_i hc
+                cases hiv0'
+                unfold sliceInterval
+                simp only
+                have c1 : max 0 (iv0.start - (i : Int)) < ((0 : Nat) : Int) + (L : Int) := by omega
+                have c2 : max 0 (iv0.stop - (i : Int)) > ((0 : Nat) : Int) := by omega
+                simp only [c1, c2, and_self, if_true]
+                congr 1
+                simp
+              · cases hiv0'
+    obtain ⟨hint, hivs⟩ := hshape
+    have e1 : r.internal.map (·.filterMap (sliceEntry ((0 : Nat) : Int) (((0 : Nat) : Int) + (L : Int)))) = r.internal := by
+      cases hd : r.internal with
+      | none => rfl
+      | some d => simp only [Option.map_some]; rw [filterMap_eq_self _ _ (hint d hd)]
+    have e2 : noneIfEmpty (r.intervals.map (·.filterMap (sliceInterval ((0 : Nat) : Int) (((0 : Nat) : Int) + (L : Int))))) = r.intervals := by
+      cases hd : r.intervals with
+      | none => rfl
+      | some l =>
+        obtain ⟨hne, hall⟩ := hivs l hd
+        simp only [Option.map_some]; rw [filterMap_eq_self _ _ hall]
+        cases l with
+        | nil => exact absurd rfl hne
+        | cons a l => rfl
+    rw [e1, e2]
+    have e3 : ¬ (((0 : Nat) : Int) > 0) := by omega
+    have e4 : ¬ ((((0 : Nat) : Int) + (L : Int)) < (r.seq.length : Int)) := by omega
+    simp only [e3, e4, if_false]
+  · have hm' : hasMods r = false := by simpa using hm
+    simp only [hm', Bool.not_false, if_true]
+    -- no modifications at all: r is the plain annotation of its sequence
+    unfold hasMods at hm'
+    simp only [Bool.or_eq_false_iff, Option.isSome_eq_false_iff, Option.isNone_iff_eq_none] at hm'
+    obtain ⟨⟨⟨⟨⟨⟨⟨⟨⟨h1, h2⟩, h3⟩, h4⟩, h5⟩, h6⟩, h7⟩, h8⟩, h9⟩, h10⟩ := hm'
+    cases r
+    simp_all [plain]
+
+end
 end Search
 end Pept
